@@ -304,18 +304,7 @@ func Preload(db *gorm.DB) {
 }
 
 func AfterQuery(db *gorm.DB) {
-	// clear the joins after query because preload need it
-	if v, ok := db.Statement.Clauses["FROM"].Expression.(clause.From); ok {
-		fromClause := db.Statement.Clauses["FROM"]
-		joins := utils.RTrimSlice(v.Joins, len(db.Statement.Joins))
-		if n, ok := db.InstanceGet("gorm:from_joins_of_its_own"); ok {
-			if kept, isInt := n.(int); isInt && kept <= len(v.Joins) {
-				joins = v.Joins[:kept]
-			}
-		}
-		fromClause.Expression = clause.From{Tables: v.Tables, Joins: joins} // keep the original From Joins
-		db.Statement.Clauses["FROM"] = fromClause
-	}
+	restoreFromJoins(db)
 	if db.Error == nil && db.Statement.Schema != nil && !db.Statement.SkipHooks && db.Statement.Schema.AfterFind && db.RowsAffected > 0 {
 		isArray := db.Statement.ReflectValue.Kind() == reflect.Array
 		callMethod(db, func(value interface{}, tx *gorm.DB) bool {
@@ -329,5 +318,22 @@ func AfterQuery(db *gorm.DB) {
 			}
 			return false
 		})
+	}
+}
+
+// restoreFromJoins takes the joins BuildQuerySQL generated from Statement.Joins out of the FROM clause again
+// (they are generated anew whenever the statement is built): a chain value can then be executed a second time
+func restoreFromJoins(db *gorm.DB) {
+	// clear the joins after query because preload need it
+	if v, ok := db.Statement.Clauses["FROM"].Expression.(clause.From); ok {
+		fromClause := db.Statement.Clauses["FROM"]
+		joins := utils.RTrimSlice(v.Joins, len(db.Statement.Joins))
+		if n, ok := db.InstanceGet("gorm:from_joins_of_its_own"); ok {
+			if kept, isInt := n.(int); isInt && kept <= len(v.Joins) {
+				joins = v.Joins[:kept]
+			}
+		}
+		fromClause.Expression = clause.From{Tables: v.Tables, Joins: joins} // keep the original From Joins
+		db.Statement.Clauses["FROM"] = fromClause
 	}
 }
